@@ -121,6 +121,30 @@ def exhaustive(ctx, prop, lay_spec, budget, ordered, ops):
         elif not g["fails"] or only_code:
             if prop == "C02":
                 _graph_violation(ctx, lay_spec, maxl, tag, g, only_spec, only_code, sedges)
+    # marking transitions judged with their own marked sets (the unlabelled graph cannot tell two markings apart that
+    # lead from one mesh to the same pair of meshes): result == DorflerDecl(pre, Mt, Ms)
+    lab = g.get("labelled", [])
+    if lab and prop == "C02":
+        if len(lab) > 1200:
+            random.Random(len(lab)).shuffle(lab)
+            lab = lab[:1200]
+        evs, meta = [], []
+        for pre, op, post in lab:
+            evs.append({"k": "reset", "exc": "", "post": [list(k) for k in pre]})
+            meta.append(None)
+            evs.append({"k": "dorfler", "exc": "", "kind": "dorfler_iso" if op[0] == "mark_iso" else "dorfler_aniso", "theta": 0.5,
+                        "mt": [list(k) for k in op[1]], "ms": [list(k) for k in (op[2] if op[0] == "mark_aniso" else op[1])], "post": [list(k) for k in post]})
+            meta.append((pre, op))
+        badl, jl = rm.judge(lay, evs, timeout=3000)
+        st["labelled_marking_transitions_judged"] = len(lab)
+        if jl.machinery_error:
+            ctx.machinery_error("%s labelled transitions: %s" % (tag, jl.machinery_error))
+        else:
+            for l, clause in badl:
+                if meta[l - 1] is not None and clause in C02_CLAUSES:
+                    pre, op = meta[l - 1]
+                    ctx.violation("%s:%s-labelled" % (clause, tag), "clause %s fails for the marking %r applied to the mesh %r on %s" % (clause, op, pre, tag),
+                                  {"layout": lay_spec, "maxl": maxl, "pre_state": [list(k) for k in pre], "op": [op[0]] + [[list(k) for k in x] for x in op[1:]]})
     # python-side judgement of the measurements (cross-check of the TLC judge below)
     py_bad = 0
     for path, probs in g["problems"]:
